@@ -1,7 +1,7 @@
 /* harnesses for statistics.c -- included at the end of the injected TU */
 #include "vg.h"
 #include <stdlib.h>
-uint64_t vg_k;
+uint64_t vg_k, vg_imin, vg_imax;
 struct jls_statistics_s vg_a0, vg_b0;     /* ghost copies of the operands on entry (the result may overwrite either) */
 
 void h_stat_reset(void) { struct jls_statistics_s * s; jls_statistics_reset(s); VG_REACH(reset_returns); }
@@ -28,4 +28,18 @@ void h_stat_combine(void) {
     VG_REACH(combine_returns);
     if (mode == 1 && sa.k > 5 && vg_b0.k > 7) { VG_REACH(combine_in_place_a); }
     if (mode == 2) { VG_REACH(combine_in_place_b); }
+}
+
+void h_stat_compute_f32(void) {
+    struct jls_statistics_s * s; const float * x; uint64_t length;
+    jls_statistics_compute_f32(s, x, length);
+    VG_REACH(compute_f32_returns);
+    if (length > 1000) { VG_REACH(compute_f32_long); }
+}
+
+void h_stat_compute_f64(void) {
+    struct jls_statistics_s * s; const double * x; uint64_t length;
+    jls_statistics_compute_f64(s, x, length);
+    VG_REACH(compute_f64_returns);
+    if (length > 1000) { VG_REACH(compute_f64_long); }
 }
